@@ -685,8 +685,15 @@ func n2ServerConfigs(ch *negCH, full bool, r *Rng, k int) [][2]string {
 				kind = "hrr"
 			}
 			if g == 0x6399 {
+				// the KyberDraftTLS13 hook answers the Kyber share of the first hello after the server made its
+				// own choice: let that choice be a classical share the hello carries (no HelloRetryRequest)
 				if negHas16(ch.shares, g) {
-					add("g13-kyber", "smax=0304 kyber=1")
+					for _, c := range []uint16{29, 23, 24, 25} {
+						if negHas16(ch.shares, c) {
+							add("g13-kyber", fmt.Sprintf("smax=0304 kyber=1 curves=%d", c))
+							break
+						}
+					}
 				}
 				continue
 			}
@@ -788,7 +795,7 @@ func c10Plan(r *Rng, tier string) []n2Case {
 		for _, c := range n2ServerConfigs(ch, true, r, 0) {
 			plan = append(plan, n2Case{"parrot," + c[0], "id=" + name + " src=parrot " + c[1]})
 		}
-		k := 4
+		k := 8
 		for _, c := range n2ServerConfigs(ch, full, r, k) {
 			plan = append(plan, n2Case{"fp," + c[0], "id=" + name + " src=fp " + c[1]})
 		}
@@ -825,7 +832,7 @@ func c10Gen(r *Rng, i int, tier string) string {
 		return fmt.Sprintf("%s seed=%d mode=%s", plan[i].toks, r.U64()>>1, plan[i].tag)
 	}
 	// randomized specs: fresh PRNG seed per case, server configuration sampled from what that hello offers
-	nr := 350
+	nr := 500
 	if tier == "thorough" {
 		nr = 6000
 	}
